@@ -37,7 +37,17 @@ def ref_cfg(units, tries):
     r.size = 2 * len(units)
     r.terminators = {}
     r.special = {}
-    r.first_payload = min([o for o, l, n in r.instr if n == "payload"], default=r.size)
+    # don't-care area: blocks containing a payload pseudo-instruction (data, wherever it lies) and everything from the trailing run of
+    # nop padding / payloads at the end of the code on
+    r.payload_offsets = {o for o, l, n in r.instr if n == "payload"}
+    r.trailing_start = r.size
+    for o, l, n in reversed(r.instr):
+        if n == "payload" or (n == "nop" and r.trailing_start != r.size):
+            r.trailing_start = o
+        else:
+            break
+    if not r.payload_offsets:
+        r.trailing_start = r.size
     for o, n, d in sw:
         if isinstance(d, tuple):
             continue
@@ -83,6 +93,11 @@ def check_method(ctx, which, dex, dx, ma, em, ref, wit, shipped=False):
             if extra:
                 w.update(extra)
             ctx.violation(mech, what, w)
+    def dontcare(b):
+        return b.get_start() >= ref.trailing_start or any(b.get_start() <= o < b.get_end() for o in ref.payload_offsets)
+
+    def dontcare_off(o):
+        return o >= ref.trailing_start or o in ref.payload_offsets
     code = em.get_code()
     bc = code.get_bc()
     ins_list = list(em.get_instructions_idx())
@@ -160,7 +175,7 @@ def check_method(ctx, which, dex, dx, ma, em, ref, wit, shipped=False):
                 if len(got_ins) != len(want_ins) or any(x is not y for x, y in zip(got_ins, want_ins)) or b.get_nb_instructions() != len(want_ins):
                     viol("C10", "block-instructions-differ", "a block's instruction list is not the disassembly slice", {"block": (b.get_start(), b.get_end())})
                     break
-            missing = sorted(l for l in ref.leaders if l not in starts and l < ref.first_payload)
+            missing = sorted(l for l in ref.leaders if l not in starts and not dontcare_off(l))
             if missing:
                 l = missing[0]
                 kind = "try-start" if any(a == l for a, b_, hs in ref.tries) else "handler-address" if any(ad == l for a, b_, hs in ref.tries for t, ad in hs) else "branch-target"
@@ -174,7 +189,7 @@ def check_method(ctx, which, dex, dx, ma, em, ref, wit, shipped=False):
     elif which == "C11":
         want_children = {}
         for b in blocks_sorted:
-            if b.get_start() >= ref.first_payload:
+            if dontcare(b):
                 continue
             offs = [o for o, l, n in ref.instr if b.get_start() <= o < b.get_end()]
             last = offs[-1]
@@ -184,7 +199,8 @@ def check_method(ctx, which, dex, dx, ma, em, ref, wit, shipped=False):
                     continue  # switch without a well-formed payload: undefined
                 want = {t for t in tg if t in ref.offsets}
             else:
-                want = {b.get_end()} if b.get_end() < ref.size and b.get_end() < ref.first_payload else (set() if b.get_end() >= ref.size else None)
+                nb = next((x for x in blocks_sorted if x.get_start() == b.get_end()), None)
+                want = (set() if b.get_end() >= ref.size else None if (dontcare_off(b.get_end()) or (nb is not None and dontcare(nb))) else {b.get_end()})
                 if want is None:
                     continue  # falls into the payload area: don't care
             want_children[b.get_start()] = want
@@ -200,7 +216,7 @@ def check_method(ctx, which, dex, dx, ma, em, ref, wit, shipped=False):
             for c in ch:
                 inv.setdefault(c, set()).add(s)
         for b in blocks_sorted:
-            if b.get_start() >= ref.first_payload:
+            if dontcare(b):
                 continue
             got = {f[2].get_start() for f in b.fathers if f[2].get_start() in want_children}
             want = inv.get(b.get_start(), set())
@@ -208,7 +224,7 @@ def check_method(ctx, which, dex, dx, ma, em, ref, wit, shipped=False):
                 viol("C11", "predecessors-not-inverse", "a block's predecessor list is not the inverse of the successor relation", {"block": (b.get_start(), b.get_end()), "got": sorted(got), "want": sorted(want)})
     elif which == "C12":
         for b in blocks_sorted:
-            if b.get_start() >= ref.first_payload:
+            if dontcare(b):
                 continue
             s, e = b.get_start(), b.get_end()
             cover = [(a, bb, hs) for a, bb, hs in ref.tries if a < e and bb >= s]
@@ -234,6 +250,12 @@ def check_method(ctx, which, dex, dx, ma, em, ref, wit, shipped=False):
                 continue
             if (ea.start, ea.end) != (a, bb):
                 viol("C12", "exception-info-wrong-range", "a block reports another try range than the one covering it", {"block": (s, e), "reported": (ea.start, ea.end), "try": (a, bb)})
+                continue
+            own = {id(x) for x in blocks}
+            if any(len(x) != 3 or (x[2] is not None and id(x[2]) not in own) for x in ea.exceptions):
+                # [type, address, handler block]: the block must be one of THIS method analysis's blocks (not a look-alike of an earlier analysis)
+                viol("C12", "exception-handler-block-not-of-this-analysis", "a handler entry is not [type, address, block of this method analysis]",
+                     {"block": (s, e), "entries": [[repr(y)[:50] for y in x] for x in ea.exceptions][:6]})
                 continue
             got_h = [(x[0], x[1], x[2].get_start() if x[2] is not None else None) for x in ea.exceptions]
             want_h = [(t, ad, ad if ad in starts else None) for t, ad in hs]
@@ -268,7 +290,7 @@ def check_method(ctx, which, dex, dx, ma, em, ref, wit, shipped=False):
             if kind != "fill" and ref.terminators.get(off) is not None:
                 want_s = {t for t in ref.terminators[off] if t in ref.offsets}
                 got_s = {c[2].get_start() for c in blk.childs}
-                if blk.get_start() < ref.first_payload and got_s != want_s:
+                if not dontcare(blk) and got_s != want_s:
                     viol("C40", "switch-targets-from-other-payload%s" % misal, "the analysis derived switch targets that are not those of the payload at the encoded offset",
                          {"ins_offset": off, "encoded_payload_offset": poff, "got": sorted(got_s), "want": sorted(want_s)})
 
